@@ -14,8 +14,8 @@ kinds
   short     hdf5 file whose image-like features hold fewer events than the
             scalars (truncated recording) -> documented limiting to the
             shortest feature
-  basin     small file with few features + file basin (same / mapped) to the
-            full file
+  basin     small file with few features + file basin (same / mapped, map also in
+            decreasing order) to the full file
   tdms      one of the fixtures of tests/data (unzipped to scratch)
 
 optionally wrapped in 1-2 levels of hierarchy children, filtered with a manual
@@ -60,7 +60,8 @@ ESSENTIAL = ["src:dict", "src:lazy", "src:hdf5", "src:short", "src:basin", "src:
              "kind:image", "kind:mask", "kind:contour", "kind:trace",
              "kind:usershaped", "kind:plugin", "kind:qpi", "duplicates",
              "logs", "tables", "tsv", "fastpath-full-hdf5", "slowpath-remainder",
-             "limited-by-shortest"]
+             "limited-by-shortest", "features-default", "box-filter",
+             "box-filter-parent"]
 ASSUMPTIONS = [
     "version shim so that files written by the untagged build re-open",
     "source kind 'lazy' = RTDC_Dict holding objects with exactly the interface of the "
@@ -203,7 +204,8 @@ def st_spec(draw):
     spec["pbox"] = [draw(st.one_of(st.none(), st.none(), BOX)) for _ in range(depth)]
     # export list: indices into the available features (+ "index"), with duplicates
     spec["export"] = draw(st.lists(st.integers(0, 30), min_size=1, max_size=7))
-    spec["export_all"] = draw(st.sampled_from([False, False, True]))
+    spec["export_all"] = draw(st.sampled_from([False, False, False, True, True,
+                                               "default"]))
     spec["temp_in_file"] = draw(st.booleans())
     spec["split"] = draw(st.integers(0, 64))
     spec["nlogs"] = draw(st.integers(0, 2))
@@ -211,7 +213,7 @@ def st_spec(draw):
                                      max_size=4))
     spec["ntables"] = draw(st.integers(0, 2))
     spec["user"] = draw(st.lists(st.integers(0, len(USERVALS) - 1), max_size=3))
-    spec["runid"] = draw(st.sampled_from(["rid", "rid", "rid", "none", "noid"]))
+    spec["runid"] = draw(st.sampled_from(["rid"] * 5 + ["none", "none", "noid"]))
     spec["basin_mapped"] = draw(st.booleans())
     spec["basin_stored"] = draw(st.integers(1, 3))
     return spec
@@ -273,6 +275,9 @@ def enumerate_cases(tier):
         yield _fixed(src, M[5], filtered=False)
         yield _fixed(src, K[3], chunk=1000, n=64)
         yield _fixed(src, K[3], chunk=None)
+    for src, depth in (("dict", 0), ("hdf5", 0), ("hdf5", 1), ("lazy", 0)):
+        yield _fixed(src, K[4], depth=depth, n=40, export_all="default")
+        yield _fixed(src, K[3], depth=depth, n=40, box=[0, -8, 8])
     for fx in (0, 1, 2, 3):
         for m in ({"mode": "all", "seed": 1}, {"mode": "drop", "k": 2, "seed": 9},
                   {"mode": "bits", "bits": [True, True, False], "seed": 1}):
@@ -482,6 +487,7 @@ class Source:
         self.tables = {}
         self.table_attrs = False
         self.limit = None       # (l_min, set of short features)
+        self.innate = None      # features_innate by construction (None: not used)
         self.rootmap = None
 
 
@@ -519,6 +525,7 @@ def build_source(spec, d, rec):
                 v = Lazy(v)
             dd[f] = v
         ds = dclab.new_dataset(dd)
+        S.innate = list(dd)
         for sec, kv in meta.items():
             for k, v in kv.items():
                 ds.config[sec][k] = v
@@ -548,6 +555,7 @@ def build_source(spec, d, rec):
         if tmp_later:
             feat_temp.set_temporary_feature(ds, "vf_vec", data["vf_vec"])
         S.table_attrs = True
+        S.innate = list(ff)
     elif src == "basin":
         pa = d / "origin.rtdc"
         pb = d / "src.rtdc"
@@ -772,6 +780,9 @@ def _run(spec, rec, d, S):
         sc = [f for f in avail if f not in TDMS_NONSC]
         req = [sc[i % len(sc)] for i in spec["export"]]
         req += [f for f in spec["nonsc"] if f in avail]
+    elif spec["export_all"] == "default" and S.innate is not None:
+        req = None                  # documented default: ds.features_innate
+        rec.cls("features-default")
     elif spec["export_all"]:
         req = list(S.avail)
     else:
@@ -782,9 +793,9 @@ def _run(spec, rec, d, S):
             ns = [f for f in ns if f in IMGLIKE] or ns
         if ns and spec["export"][0] % 4:
             req.append(ns[spec["export"][0] % len(ns)])
-    if len(set(req)) < len(req):
+    if req is not None and len(set(req)) < len(req):
         rec.cls("duplicates")
-    want = sorted(set(req))
+    want = sorted(set(req if req is not None else S.innate))
     flags = spec["flags"]
     skip_checks = flags["skip_checks"]
     # ---- expected selection
@@ -870,7 +881,8 @@ def _run(spec, rec, d, S):
                if (sec in dclab.dfn.CFG_METADATA or sec == "user")
                and sec != "fmt_tdms"}     # documented: tdms section is dropped
     try:
-        ds.export.hdf5(target, features=list(req), filtered=filtered,
+        ds.export.hdf5(target, features=None if req is None else list(req),
+                       filtered=filtered,
                        logs=flags["logs"], tables=flags["tables"], basins=basins,
                        skip_checks=skip_checks, **kw)
     except NotImplementedError:
@@ -1092,6 +1104,11 @@ def verify_hdf5(spec, rec, out, S, src_ds, want, exp, k, tag, eff_filtered,
 
 
 VERSION_KEY = ("setup", "software version")
+#: "%.10e" is correctly rounded to 11 significant digits: relative error
+#: <= 5e-11 (half a unit of the last digit at mantissa 1.0) + 1.1e-16 for
+#: parsing the decimal back; 5.001e-11 keeps that bound with a margin that a
+#: format with one digit less (5e-10) exceeds by a factor of 10.
+TSV_RTOL = 5.001e-11
 
 
 def verify_meta(spec, rec, ds2, src_cfg, src_runid, want, filtered, tag):
@@ -1230,7 +1247,7 @@ def verify_tsv(spec, rec, d, S, ds, ridx, sel, want, tag):
             elif e in (float("inf"), float("-inf")) or g in (float("inf"), float("-inf")):
                 ok = e == g
             else:
-                ok = abs(g - e) <= 5.0e-11 * abs(e)
+                ok = abs(g - e) <= TSV_RTOL * abs(e)
             if not ok:
                 bad = f"row {r} {f}: written {cells[j]!r}, source {e!r}"
                 break
